@@ -189,6 +189,28 @@ def fill(claim, na):
         "format limits; idiom tables in sa/props/C18.py.",
         "DESIGN.md section 2, C18",
     )
-    for p in ["C03", "C03", "C04", "C05", "C08", "C09", "C10",
+    claim(
+        "C03",
+        "literal table evaluation against an IUPAC oracle, sibling comparison of range guards "
+        "(contradiction rule) over alphabet.py/codec.pyx/kmeralphabet.pyx, cast-before-check "
+        "dominance, typed subscripts of the codec table (Cython lowering), Copyable contract over "
+        "the Sequence hierarchy, coupled-list permutation (custom ast analysis)",
+        "Decides the table clauses, the 'out-of-range codes raise AlphabetError' clause where it is a "
+        "matter of guards and casts, and the copy/slice clause: the complement table is total on "
+        "the ambiguous alphabet, an involution and equal to the IUPAC complement; the 1<->3 letter "
+        "tables are total, injective and inverse; codon weights and digit extraction use the same "
+        "order; every guard that rejects a code against an alphabet length uses >= (known finding: "
+        "KmerAlphabet.fuse); a narrowing cast of caller codes is dominated by a two-sided range "
+        "check (known finding: Sequence.code setter), the mapper table is sized by the alphabet "
+        "whose codes it stores, dtype ladders use <= size; the 256-entry codec table is subscripted "
+        "only by unsigned char values, its sentinel is the alphabet length, the decoder tests >= "
+        "before its unchecked read; all Sequence subclasses satisfy the Copyable contract, copy() "
+        "and reverse(copy=True) copy the code; encode*/decode* raise AlphabetError only; the ORF "
+        "lists of translate() are permuted together. Not decided: encode/decode identity on all "
+        "inputs, translation values, ORF positions.",
+        "Trusted: IUPAC oracle table; Cython lowering for parameter types; idiom tables in sa/props/C03.py.",
+        "DESIGN.md section 2, C03",
+    )
+    for p in ["C04", "C03", "C04", "C05", "C08", "C09", "C10",
               "C11", "C14", "C15", "C16", "C19"]:
         na(p, PENDING)
